@@ -47,17 +47,21 @@ mod assignment_pre_conversion_validation_rules {
         input: &Expression,
         pos: Position,
     ) -> Result<(), LintErrorPos> {
-        if let Expression::Variable(var_name, _) = input {
-            if ctx
-                .names
-                .contains_const_recursively(var_name.as_bare_name())
+        // a plain name, or a dotted name (which is parsed as a property)
+        let opt_name = match input {
+            Expression::Variable(var_name, _) => Some(var_name.clone()),
+            Expression::Property(_, _, _) => input.fold_name(),
+            _ => None,
+        };
+        match opt_name {
+            Some(var_name)
+                if ctx
+                    .names
+                    .contains_const_recursively(var_name.as_bare_name()) =>
             {
                 Err(LintError::DuplicateDefinition.at_pos(pos))
-            } else {
-                Ok(())
             }
-        } else {
-            Ok(())
+            _ => Ok(()),
         }
     }
 }
